@@ -557,7 +557,7 @@ func verifC25GenAA(r *verifutil.Rand, thorough bool) []string {
 		toks = append(toks, "off")
 	}
 	toks = append(toks, fmt.Sprintf("w%d", int64(100+r.Intn(1500))*1000000))
-	return []string{fmt.Sprintf("aa %d %s", rate, strings.Join(toks, " "))}
+	return []string{fmt.Sprintf("reset %d", rate), fmt.Sprintf("aa %d %s", rate, strings.Join(toks, " "))}
 }
 
 func verifC25GenHLS(r *verifutil.Rand, thorough bool) []string {
@@ -611,7 +611,8 @@ func verifC25GenHLS(r *verifutil.Rand, thorough bool) []string {
 			toks = append(toks, verifC25Jump(r))
 		}
 	}
-	return []string{fmt.Sprintf("hls %s %d %d %d %s", c.name, trackRate, c.out, abs, strings.Join(toks, " "))}
+	return []string{fmt.Sprintf("reset %d", trackRate),
+		fmt.Sprintf("hls %s %d %d %d %s", c.name, trackRate, c.out, abs, strings.Join(toks, " "))}
 }
 
 func verifC25ClassTrace(op, impl string) string {
